@@ -6,8 +6,10 @@ import (
 	"os"
 	"os/exec"
 	"path/filepath"
+	"runtime"
 	"sort"
 	"strings"
+	"sync"
 )
 
 // thoroughExtras: what the thorough tier adds to the quick rules.
@@ -79,6 +81,7 @@ func thoroughExtras(r *Report, repo, verif, prop string) {
 		}
 	}
 	sort.Strings(names)
+	var mine []string
 	for _, n := range names {
 		b, err := os.ReadFile(filepath.Join(seeded, n, "meta.json"))
 		if err != nil {
@@ -90,28 +93,23 @@ func thoroughExtras(r *Report, repo, verif, prop string) {
 		if json.Unmarshal(b, &meta) != nil {
 			continue
 		}
-		mine := false
 		for _, d := range meta.DetectedBy {
 			if strings.HasPrefix(d, prop+":") {
-				mine = true
+				mine = append(mine, n)
+				break
 			}
 		}
-		if !mine {
-			continue
-		}
-		expected++
-		wt := filepath.Join(tmp, "wt-"+n)
-		if out, err := exec.Command("git", "-C", repo, "worktree", "add", "-q", "--detach", wt, "HEAD").CombinedOutput(); err != nil {
+	}
+	expected = len(mine)
+	var gitMu sync.Mutex // git worktree add/remove take a lock on the repository: one at a time
+	scratch := func(wt string) bool {
+		gitMu.Lock()
+		defer gitMu.Unlock()
+		if err := exec.Command("git", "-C", repo, "worktree", "add", "-q", "--detach", wt, "HEAD").Run(); err != nil {
 			// the repository under test may not be a git checkout with HEAD: copy instead
-			_ = out
-			if out2, err2 := exec.Command("cp", "-a", repo, wt).CombinedOutput(); err2 != nil {
-				reps = append(reps, rep{n, "skipped: cannot make a scratch copy: " + string(out2), false})
-				continue
+			if err2 := exec.Command("cp", "-a", repo, wt).Run(); err2 != nil {
+				return false
 			}
-		}
-		cleanup := func() {
-			exec.Command("git", "-C", repo, "worktree", "remove", "--force", wt).Run()
-			os.RemoveAll(wt)
 		}
 		// the working tree under test may differ from HEAD: bring the scratch copy to the same content
 		if diff, err := exec.Command("git", "-C", repo, "diff", "HEAD").Output(); err == nil && len(diff) > 0 {
@@ -119,18 +117,56 @@ func thoroughExtras(r *Report, repo, verif, prop string) {
 			ap.Stdin = strings.NewReader(string(diff))
 			ap.Run()
 		}
+		return true
+	}
+	cleanup := func(wt string) {
+		gitMu.Lock()
+		defer gitMu.Unlock()
+		exec.Command("git", "-C", repo, "worktree", "remove", "--force", wt).Run()
+		os.RemoveAll(wt)
+	}
+	workers := runtime.NumCPU() / 2
+	if workers < 1 {
+		workers = 1
+	}
+	if workers > 8 {
+		workers = 8
+	}
+	type outcome struct {
+		rep   rep
+		fatal string
+		ok    bool
+	}
+	inParallel := func(items []string, one func(n string) outcome) []outcome {
+		res := make([]outcome, len(items))
+		var wg sync.WaitGroup
+		sem := make(chan struct{}, workers)
+		for i, n := range items {
+			wg.Add(1)
+			sem <- struct{}{}
+			go func(i int, n string) {
+				defer wg.Done()
+				defer func() { <-sem }()
+				res[i] = one(n)
+			}(i, n)
+		}
+		wg.Wait()
+		return res
+	}
+	for _, o := range inParallel(mine, func(n string) outcome {
+		wt := filepath.Join(tmp, "wt-"+n)
+		if !scratch(wt) {
+			return outcome{rep: rep{n, "skipped: cannot make a scratch copy", false}}
+		}
+		defer cleanup(wt)
 		patch := filepath.Join(seeded, n, "patch.diff")
 		if err := exec.Command("git", "-C", wt, "apply", patch).Run(); err != nil {
 			if err2 := exec.Command("git", "-C", wt, "apply", "--3way", patch).Run(); err2 != nil {
-				reps = append(reps, rep{n, "skipped: the seeded patch no longer applies to the tree under test", false})
-				cleanup()
-				continue
+				return outcome{rep: rep{n, "skipped: the seeded patch no longer applies to the tree under test", false}}
 			}
 		}
 		code, out := run(nil, "-repo", wt, "-verif", verif, "-property", prop, "-tier", "quick", "-evidence", filepath.Join(tmp, n+".json"))
-		cleanup()
 		if code == 1 {
-			detected++
 			first := ""
 			for _, l := range strings.Split(out, "\n") {
 				if strings.HasPrefix(l, "   ") && strings.Contains(l, " at ") && !strings.HasPrefix(l, "   rule") {
@@ -138,10 +174,17 @@ func thoroughExtras(r *Report, repo, verif, prop string) {
 					break
 				}
 			}
-			reps = append(reps, rep{n, "detected: " + first, true})
-		} else {
-			reps = append(reps, rep{n, fmt.Sprintf("NOT detected (exit %d)", code), true})
-			r.Fatal("thorough: the checker no longer detects seeded change %s (exit %d): the rule regressed", n, code)
+			return outcome{rep: rep{n, "detected: " + first, true}, ok: true}
+		}
+		return outcome{rep: rep{n, fmt.Sprintf("NOT detected (exit %d)", code), true},
+			fatal: fmt.Sprintf("thorough: the checker no longer detects seeded change %s (exit %d): the rule regressed", n, code)}
+	}) {
+		reps = append(reps, o.rep)
+		if o.ok {
+			detected++
+		}
+		if o.fatal != "" {
+			r.Fatal("%s", o.fatal)
 		}
 	}
 	r.Analysed["mutant_replay"] = reps
@@ -160,41 +203,38 @@ func thoroughExtras(r *Report, repo, verif, prop string) {
 	sort.Strings(rnames)
 	silent, tried := 0, 0
 	var rreps []rep
+	var withPatch []string
 	for _, n := range rnames {
+		if _, err := os.Stat(filepath.Join(refDir, n, "patch.diff")); err == nil {
+			withPatch = append(withPatch, n)
+		}
+	}
+	for _, o := range inParallel(withPatch, func(n string) outcome {
 		patch := filepath.Join(refDir, n, "patch.diff")
-		if _, err := os.Stat(patch); err != nil {
-			continue
-		}
 		wt := filepath.Join(tmp, "rf-"+n)
-		if err := exec.Command("git", "-C", repo, "worktree", "add", "-q", "--detach", wt, "HEAD").Run(); err != nil {
-			if err2 := exec.Command("cp", "-a", repo, wt).Run(); err2 != nil {
-				rreps = append(rreps, rep{n, "skipped: cannot make a scratch copy", false})
-				continue
-			}
+		if !scratch(wt) {
+			return outcome{rep: rep{n, "skipped: cannot make a scratch copy", false}}
 		}
-		cleanup := func() {
-			exec.Command("git", "-C", repo, "worktree", "remove", "--force", wt).Run()
-			os.RemoveAll(wt)
-		}
-		if diff, err := exec.Command("git", "-C", repo, "diff", "HEAD").Output(); err == nil && len(diff) > 0 {
-			ap := exec.Command("git", "-C", wt, "apply")
-			ap.Stdin = strings.NewReader(string(diff))
-			ap.Run()
-		}
+		defer cleanup(wt)
 		if err := exec.Command("git", "-C", wt, "apply", patch).Run(); err != nil {
-			rreps = append(rreps, rep{n, "skipped: the refactoring no longer applies to the tree under test", false})
-			cleanup()
-			continue
+			return outcome{rep: rep{n, "skipped: the refactoring no longer applies to the tree under test", false}}
 		}
-		tried++
 		code, out := run(nil, "-repo", wt, "-verif", verif, "-property", prop, "-tier", "quick", "-evidence", filepath.Join(tmp, n+".json"))
-		cleanup()
 		if code == 0 {
+			return outcome{rep: rep{n, "silent (exit 0)", true}, ok: true}
+		}
+		return outcome{rep: rep{n, fmt.Sprintf("NOT silent (exit %d)", code), true},
+			fatal: fmt.Sprintf("thorough: the check is not silent on the behaviour-preserving refactoring %s (exit %d): %s", n, code, lastLines(out, 4))}
+	}) {
+		rreps = append(rreps, o.rep)
+		if o.rep.Applied {
+			tried++
+		}
+		if o.ok {
 			silent++
-			rreps = append(rreps, rep{n, "silent (exit 0)", true})
-		} else {
-			rreps = append(rreps, rep{n, fmt.Sprintf("NOT silent (exit %d)", code), true})
-			r.Fatal("thorough: the check is not silent on the behaviour-preserving refactoring %s (exit %d): %s", n, code, lastLines(out, 4))
+		}
+		if o.fatal != "" {
+			r.Fatal("%s", o.fatal)
 		}
 	}
 	r.Analysed["refactoring_replay"] = rreps
